@@ -237,6 +237,7 @@ def fixed_schema():
             F("p", T("Person"), [A("a", T("Int")), A("a_0", T("Int"))]),
             F("search", ("nn", ("l", ("nn", T("SearchResult")))), [A("text", ("nn", T("String")))]),
             F("me", T("Person")), F("version", T("String")),
+            F("events", T("Person"), [A("at", ("l", ("nn", T("Instant")))), A("opt", ("l", T("Instant")))]),
             F("serverTime", T("Instant"), [A("zone", T("String"))])]},
         {"name": "Mutation", "kind": "o", "ifaces": [], "fields": [
             F("renamePerson", T("Person"), [A("id", ("nn", T("ID"))), A("newName", ("nn", T("String")))]),
@@ -346,6 +347,8 @@ def gen_value(rng, sc, t, depth=0):
     if t[0] == "l":
         k = rng.choice([0, 1, 2, 2])
         vs = [gen_value(rng, sc, t[1], depth + 1) for _ in range(k)]
+        if t[1][0] != "nn":        # nullable items: sometimes a None item
+            vs = [(None, None) if rng.random() < 0.15 else v for v in vs]
         return [v[0] for v in vs], {"list": [v[1] for v in vs]}
     n = t[1]
     if n in ("ID", "String"):
